@@ -124,7 +124,8 @@ def search_labels(deadline, rng):
 def gen_stmt(rng, depth):
     k = rng.random()
     if k < 0.22:
-        return ('assign',)
+        # an assignment that is fine, or one that another pass of the analyzer rejects (E530): the placement rules hold either way
+        return ('assign', rng.choice(['v', 'v', 'p', 'K']))
     if k < 0.40:
         return ('loop',)
     if k < 0.55:
@@ -142,7 +143,7 @@ def gen_stmt(rng, depth):
 
 def stmt_src(st, ind):
     if st[0] == 'assign':
-        return '%sv = 2;\n' % ind
+        return '%s%s = 2;\n' % (ind, st[1] if len(st) > 1 else 'v')
     if st[0] == 'loop':
         return '%sloop;\n' % ind
     if st[0] == 'goto':
@@ -182,7 +183,7 @@ def search_syntax(deadline, rng):
     while time.time() < deadline and tried < 4000:
         tried += 1
         body = [gen_stmt(rng, 1) for _ in range(rng.randint(1, 4))]
-        src = 'fn main()\n{\n\tvar v = 0;\n' + ''.join(stmt_src(s, '\t') for s in body) + '\tend:\n}\n'
+        src = 'const K: i32 = 1;\n\nfn main(p: i32)\n{\n\tvar v = 0;\n' + ''.join(stmt_src(s, '\t') for s in body) + '\tend:\n}\n'
         acc = [0, 0, 0]
         for s in body:
             syn_oracle(s, False, False, False, acc)
